@@ -628,6 +628,7 @@ def run(ctx):
     phase("pipeline")
     found = {}          # key -> (text, desc, label, count)
     fmt_cases = []
+    replay_chars = [0]
     for label, text, rec, probs in results:
         fam = label.split(":")[0]
         ctx.count("input:" + fam)
@@ -648,7 +649,8 @@ def run(ctx):
             flat = [m for g in rec["messages"][:3] for m in g[:3]]
             files = make_files(text, extra)
             for m, parts in zip(flat, rec["parts"]):
-                if all(ord(c) < 0x110000 for c in text):
+                if len(text) <= 2500 and replay_chars[0] < (1500000 if ctx.thorough() else 150000):   # Coq parses ~20k code points/s
+                    replay_chars[0] += len(text)
                     src = {k: files[k] for k in {m["file"], MAIN} if k in files}   # as passed to format_errors
                     fmt_cases.append(("CFormat %s %s" % (csources(src), cmsg(m["file"], m["loc"], m["severity"], m["text"])),
                                       "RParts %s" % cparts(parts), {"kind": "format-replay", "text": text, "message": m, "crash": None}))
